@@ -130,6 +130,7 @@ def impl_run(case):
             except ValueError:
                 out.append({"k": kk, "exc": "ValueError", "calls": [list(x) for x in rec]})
         rb = [len(r.randbytes(n)) == n for n in (0, 1, 7, 64)]
+        rb += [len(r.randbytes(n)) == n for _ in range(1500) for n in (1, 2, 5)]     # leading zero bytes happen once in 256
         rnd = [0.0 <= r.random() < 1.0 for _ in range(50)]
         return {"bits": out, "randbytes_ok": all(rb), "random_ok": all(rnd)}
     mk = (lambda s: rng.PCG64DXSMRandom(s)) if case["impl"] == "numpy" else (lambda s: random.Random(s))
